@@ -80,44 +80,48 @@ impl TimeZone {
     }
 
     pub(crate) fn to_local_time_type(&self, timestamp: i64) -> LocalTimeType {
-        match self.transitions[..] {
-            [] => match &self.extra_rule {
-                Some(rule) => match rule {
-                    TransitionRule::Fixed(local_time_type) => local_time_type.clone(),
-                    TransitionRule::Alternate(altt) => {
-                        let std_end_timestamp = altt.local_std_end_timestamp(timestamp);
-                        let dst_end_timestamp = altt.local_dst_end_timestamp(timestamp);
+        // The transitions only describe the time until the last transition.
+        // From then on (or if there are no transitions), the rule from the footer applies.
+        let after_last_transition = self
+            .transitions
+            .last()
+            .map_or(true, |last| last.unix_leap_time <= timestamp);
 
-                        let std_end_unix = std_end_timestamp - altt.std.utoff as i64;
-                        let dst_end_unix = dst_end_timestamp - altt.dst.utoff as i64;
+        match &self.extra_rule {
+            Some(rule) if after_last_transition => match rule {
+                TransitionRule::Fixed(local_time_type) => local_time_type.clone(),
+                TransitionRule::Alternate(altt) => {
+                    let std_end_timestamp = altt.local_std_end_timestamp(timestamp);
+                    let dst_end_timestamp = altt.local_dst_end_timestamp(timestamp);
 
-                        match timestamp {
-                            // std end is before dst end
-                            // timestamp is after time changed to dst
-                            timestamp
-                                if std_end_unix < dst_end_unix
-                                    && std_end_unix <= timestamp
-                                    && timestamp < dst_end_unix =>
-                            {
-                                altt.dst.clone()
-                            }
-                            // std is before dst
-                            // timestamp is in std range
-                            _ if std_end_unix < dst_end_unix => altt.std.clone(),
-                            // dst end is before std end
-                            // timestamp is after time changed to std
-                            timestamp
-                                if dst_end_unix < std_end_unix
-                                    && dst_end_unix <= timestamp
-                                    && timestamp < std_end_unix =>
-                            {
-                                altt.std.clone()
-                            }
-                            _ => altt.dst.clone(),
+                    let std_end_unix = std_end_timestamp - altt.std.utoff as i64;
+                    let dst_end_unix = dst_end_timestamp - altt.dst.utoff as i64;
+
+                    match timestamp {
+                        // std end is before dst end
+                        // timestamp is after time changed to dst
+                        timestamp
+                            if std_end_unix < dst_end_unix
+                                && std_end_unix <= timestamp
+                                && timestamp < dst_end_unix =>
+                        {
+                            altt.dst.clone()
                         }
+                        // std is before dst
+                        // timestamp is in std range
+                        _ if std_end_unix < dst_end_unix => altt.std.clone(),
+                        // dst end is before std end
+                        // timestamp is after time changed to std
+                        timestamp
+                            if dst_end_unix < std_end_unix
+                                && dst_end_unix <= timestamp
+                                && timestamp < std_end_unix =>
+                        {
+                            altt.std.clone()
+                        }
+                        _ => altt.dst.clone(),
                     }
-                },
-                None => self.local_time_types[0].clone(),
+                }
             },
             _ => {
                 let mut local_time_type_index = 0;
